@@ -742,6 +742,54 @@ def relay_case(tid, has_relay, cuts, units_first=False):
     return w, rec
 
 
+def reconnect_then_close_case(tid, first, closers, cuts=1):
+    """Connected; the network cuts the link and side `first` notices first (the other side learns of the new generation through
+    the mailbox while it still believes it is connected); everything is run out fairly (second generation connected); `cuts`
+    times over; then the sides in `closers` close.  Closing must complete and leave nothing behind."""
+    w = FullWorld(variant=tid)
+    w.schedule.append(["reconnect-then-close", first, list(closers), cuts])
+    other = "F" if first == "L" else "L"
+    rested = True
+    try:
+        w.do(("AppDilate", "L", 0))
+        w.do(("AppDilate", "F", 0))
+        rested = w.run_out()
+        for _ in range(cuts):
+            sel = w.selected_links(first)
+            if not sel:
+                break
+            i = sel[0]
+            w.do(("Cut", "-", i))
+            w.do(("ObserveLoss", first, i))
+            while w._run_eq_call(first, "lost"):
+                pass
+            w.run_auto_timers()
+            w.pump_mailbox()
+            # the other side gets the control messages while its own end of the link still looks alive
+            for _ in range(4):
+                if not w.held[other]:
+                    break
+                w.do(("MailboxDeliver", other, 0))
+            rested = w.run_out() and rested
+        second = w.state()
+        for x in closers:
+            w.do(("Stop", x, 0))
+        rested = w.run_out() and rested
+    except Exception as e:
+        rested = False
+        w.internal.append("reconnect_then_close_case: %r" % (e,))
+        second = w.state()
+    final = w.state()
+    internal = w.finish()
+    benign = [x for x in internal if any(b in x for b in BENIGN)]
+    rec = {"tid": tid, "snaps": w.snaps, "final": final, "internal": [x for x in internal if x not in benign], "benign": len(benign),
+           "stopCalled": {n: n in w.stop_called for n in ("L", "F")}, "atEnd": final, "rested": bool(rested),
+           "specStopped": {"L": False, "F": False}, "convergenceDue": False,
+           "restStopDue": {n: bool(rested and n in w.stop_called) for n in ("L", "F")}, "restConvergenceDue": False,
+           "secondConnected": all(second[n]["mgr"] == "CONNECTED" for n in ("L", "F"))}
+    return w, rec
+
+
 def old_peer_case(tid):
     """the peer cannot dilate: pending and future subchannel connect() calls fail with OldPeerCannotDilateError"""
     from ..mbworld import MailboxWorld as MW
@@ -937,6 +985,19 @@ def run(prop, tier):
                     records.append(rec)
                     meta[tid] = {"schedule": w.schedule, "no_listen": ["F", "L"], "traffic": False, "frag": 0}
         cov["relay_only_cases"] = nrelay
+        # family: reconnect (either side noticing first, once or twice), then close (either side, both)
+        nrc = 0
+        for first in ("L", "F"):
+            for closers in (("L",), ("F",), ("L", "F"), ("F", "L")):
+                for ncuts in (1, 2):
+                    tid += 1
+                    nrc += 1
+                    w, rec = reconnect_then_close_case(tid, first, closers, ncuts)
+                    rec["origin"], rec["config"] = "family:reconnect-then-close", "full"
+                    rec.setdefault("oldpeer", {"ok": True, "closed": True})
+                    records.append(rec)
+                    meta[tid] = {"schedule": w.schedule, "no_listen": [], "traffic": False, "frag": 0}
+        cov["reconnect_then_close_cases"] = nrc
         path = wd.file("obs.ndjson")
         with open(path, "w") as f:
             for rec in records:
